@@ -537,6 +537,55 @@ Proof.
   rewrite (list_get_lt _ _ _ Hb). change ((0, 0), 0%nat) with ((fun z : gi => (z, 0%nat)) g0). rewrite map_nth. rewrite flatten_nth by assumption. reflexivity.
 Qed.
 
+
+(* ---- get_pauli_weights (average_pauli_weight.py): the base-4 digit weight table ---- *)
+Fixpoint divs4 (m i : nat) : nat := match m with O => i | S m' => divs4 m' (i / 4) end.
+Lemma inner_fold_generic (pos : nat) (f : fres (Z * Z) -> Z -> fres (Z * Z)) :
+  (forall t w x, f (FRet (t, w)) x = FRet (t / 4, if negb (t mod 4 =? Z.of_nat pos) then w + 1 else w)) ->
+  forall (l : list Z) i w, fold_left f l (FRet (Z.of_nat i, w)) = FRet (Z.of_nat (divs4 (length l) i), w + Z.of_nat (digits_ne (length l) i pos)).
+Proof.
+  intros Hf. induction l as [|x l IH]; intros i w; [cbn [fold_left length divs4 digits_ne]; f_equal; f_equal; lia|].
+  cbn [fold_left length divs4 digits_ne]. rewrite Hf. change 4 with (Z.of_nat 4). rewrite <- Nat2Z.inj_div, <- Nat2Z.inj_mod.
+  assert (E : (Z.of_nat (i mod 4) =? Z.of_nat pos) = Nat.eqb (i mod 4) pos) by (destruct (Nat.eqb_spec (i mod 4) pos); lia).
+  rewrite E, IH. f_equal. f_equal. destruct (Nat.eqb (i mod 4) pos); cbn [negb]; lia.
+Qed.
+Lemma set_nth_app {A} (pre : list A) x suf v : set_nth (pre ++ x :: suf) (length pre) v = pre ++ v :: suf.
+Proof. induction pre as [|a pre IH]; [reflexivity|]. cbn [app length set_nth]. rewrite IH. reflexivity. Qed.
+Lemma outer_fold_generic (f : fres (list Z) -> Z -> fres (list Z)) (g : nat -> Z) :
+  (forall pre x suf, f (FRet (pre ++ x :: suf)) (Z.of_nat (length pre)) = FRet (pre ++ g (length pre) :: suf)) ->
+  forall cnt k pre suf, length pre = k -> length suf = cnt -> fold_left f (map Z.of_nat (seq k cnt)) (FRet (pre ++ suf)) = FRet (pre ++ map g (seq k cnt)).
+Proof.
+  intros Hf. induction cnt as [|cnt IH]; intros k pre suf Hp Hs.
+  - destruct suf; [reflexivity|discriminate Hs].
+  - destruct suf as [|x suf]; [discriminate Hs|]. cbn [seq map fold_left]. rewrite <- Hp, Hf.
+    replace (pre ++ g (length pre) :: suf) with ((pre ++ [g (length pre)]) ++ suf) by (rewrite <- app_assoc; reflexivity).
+    rewrite (IH (S (length pre)) (pre ++ [g (length pre)]) suf) by (rewrite ?app_length; cbn [length]; try lia; injection Hs as Hs; exact Hs).
+    rewrite <- app_assoc. reflexivity.
+Qed.
+(* for every number of qubits and every digit chosen for the identity: the table of the model, about which C13_weights is proved *)
+Theorem gen_n_pauli_weights (n pos : nat) : py_N_get_pauli_weights (Z.of_nat n) (Z.of_nat pos) = FRet (map Z.of_nat (pauli_weights n pos)).
+Proof.
+  unfold py_N_get_pauli_weights. cbv beta iota zeta.
+  assert (G1 : (0 <=? Z.of_nat n) = true) by lia. assert (G2 : (0 <=? 4 ^ Z.of_nat n) = true) by (pose proof (Z.pow_nonneg 4 (Z.of_nat n)); lia).
+  rewrite G1, G2. unfold pyrange. rewrite <- pow4_nat, !Nat2Z.id.
+  match goal with |- context [fold_left ?f (map Z.of_nat (seq 0 (Nat.pow 4 n))) (FRet ?s)] =>
+    assert (Hstep : forall pre x suf, f (FRet (pre ++ x :: suf)) (Z.of_nat (length pre)) = FRet (pre ++ Z.of_nat (digits_ne n (length pre) pos) :: suf)) end.
+  { intros pre x suf. cbv beta iota.
+    match goal with |- context [fold_left ?fi (map Z.of_nat (seq 0 n)) (FRet ?s)] =>
+      pose proof (inner_fold_generic pos fi ltac:(intros t w y; reflexivity) (map Z.of_nat (seq 0 n)) (length pre) 0) as HI end.
+    rewrite map_length, seq_length in HI. rewrite HI. cbv beta iota.
+    rewrite idx_ok_lt by (rewrite app_length; cbn [length]; lia). rewrite list_set_lt by (rewrite app_length; cbn [length]; lia).
+    rewrite Nat2Z.id, set_nth_app. rewrite Z.add_0_l. reflexivity. }
+  pose proof (outer_fold_generic _ (fun i => Z.of_nat (digits_ne n i pos)) Hstep (Nat.pow 4 n) 0%nat [] (repeat 0 (Nat.pow 4 n)) eq_refl (repeat_length _ _)) as HO.
+  cbn [app] in HO. rewrite HO. unfold pauli_weights. rewrite map_map. reflexivity.
+Qed.
+(* negative arguments, as the source treats them *)
+Theorem gen_n_pauli_weights_negative n pos : n < 0 -> py_N_get_pauli_weights n pos = FNonInt.
+Proof. intros H. unfold py_N_get_pauli_weights. assert (E : (0 <=? n) = false) by lia. rewrite E. reflexivity. Qed.
+Example gen_pauli_weights_runs :
+  py_N_get_pauli_weights 2 0 = FRet [0; 1; 1; 1; 1; 2; 2; 2; 1; 2; 2; 2; 1; 2; 2; 2] /\ py_N_get_pauli_weights 1 3 = FRet [1; 1; 1; 0].
+Proof. split; vm_compute; reflexivity. Qed.
+
 (* matrix_decomposition on a 2^N x 2^N matrix, given what _mat_to_vec returns *)
 Theorem gen_n_full (fuel N : nat) (flat : list num) (v : gvec) : length v = Nat.pow 4 N -> (1 <= N)%nat -> (N < fuel)%nat ->
   py_N__mat_to_vec fuel (Z.of_nat (Nat.pow 2 N)) flat = FRet (lift 0 v) ->
@@ -590,3 +639,6 @@ Print Assumptions pauli_ord_spec.
 Print Assumptions gen_n_mat_to_vec_idx.
 Print Assumptions gen_n_mat_to_vec.
 Print Assumptions gen_mat_to_vec_runs.
+Print Assumptions gen_n_pauli_weights.
+Print Assumptions gen_n_pauli_weights_negative.
+Print Assumptions gen_pauli_weights_runs.
